@@ -132,7 +132,10 @@ pub fn run_sequence(kind: &str, nhandles: usize, seq: &[Step], st: &mut Stats) -
     for (i, &(h, act)) in seq.iter().enumerate() {
         st.count("transitions");
         let ctx = format!("step {i} ({h}, {act:?})");
-        if let Some(opts) = options(act) {
+        // writers of odd handles run two indexing workers (a failing worker then leaves a surviving one, which
+        // has to be released when the writer is dropped or rolled back)
+        let opts = if act == Act::New && h % 2 == 1 { Some(IndexWriterOptions::builder().num_worker_threads(2).memory_budget_per_thread(15_000_000).build()) } else { options(act) };
+        if let Some(opts) = opts {
             let r = catch_unwind(AssertUnwindSafe(|| w.handles[h].writer_with_options::<TantivyDocument>(opts)));
             let r = match r {
                 Ok(r) => r,
